@@ -752,4 +752,75 @@ theorem float32_tie_literal_agrees_now :
 
 example : stdClass nameTy (.obj (.cons "name".toList .null .nil)) = some .null := by decide
 
+/-! ### round 5c: the model FOLLOWS the decision functions that Tie proves equal to the Go conditions
+(`processFieldNotFromString` -> `nfsRoute`, `processNamedField` -> `fieldRoute`, `WithFromArray` -> `fromArrayTakesFirst`) -/
+
+theorem withValue_follows_dispatch (o : Opts) (ps : List JM) :
+    (∀ fs m, nfsRoute (kindOfJ (.obj m)) (kindOfTy (.struct fs)) false false = .structFromMap ∧
+        withValue o ps (.struct fs) (.obj m) = (unmarshalStruct o ps fs m).map .struct) ∧
+    (∀ t l, nfsRoute (kindOfJ (.arr l)) (kindOfTy (.slice t)) false false = .fillSlice ∧
+        withValue o ps (.slice t) (.arr l) = fillSlice o t l) ∧
+    (∀ t m, nfsRoute (kindOfJ (.obj m)) (kindOfTy (.map t)) false false = .fillMap ∧
+        withValue o ps (.map t) (.obj m) = (genMap o t m).map .map) ∧
+    (∀ p v, withValue o ps (.prim p) v = primField o p v) ∧
+    (∀ t m, nfsRoute (kindOfJ (.obj m)) (kindOfTy (.slice t)) false false = .primitive ∧
+        withValue o ps (.slice t) (.obj m) = .error .err) ∧
+    (∀ t l, nfsRoute (kindOfJ (.arr l)) (kindOfTy (.map t)) false false = .primitive ∧
+        withValue o ps (.map t) (.arr l) = .error .err) ∧
+    (∀ fs l, nfsRoute (kindOfJ (.arr l)) (kindOfTy (.struct fs)) false false = .primitive ∧
+        withValue o ps (.struct fs) (.arr l) = .error .err) := by
+  refine ⟨fun fs m => ⟨rfl, ?_⟩, fun t l => ⟨rfl, ?_⟩, fun t m => ⟨rfl, ?_⟩, fun p v => ?_, fun t m => ⟨rfl, ?_⟩,
+    fun t l => ⟨rfl, ?_⟩, fun fs l => ⟨rfl, ?_⟩⟩ <;> simp [withValue]
+
+theorem unmarshalStruct_env_route (o : Opts) (ps : List JM) (f : FMeta) (t : Ty) (m : JM) (hne : f.embedded = false)
+   (h : modelFieldRoute o f (modelFound o ps f t m) = .env) :
+   unmarshalStruct o ps (.cons f t .nil) m = (withEnv o f t (envLookup o.env f.envVar)).map (fun x => .cons f.name x .nil) := by
+  have he : f.envVar ≠ [] ∧ envLookup o.env f.envVar ≠ [] := by
+    simp only [modelFieldRoute, fieldRoute] at h
+    by_cases h1 : f.envVar = [] <;> by_cases h2 : envLookup o.env f.envVar = [] <;>
+      cases hm : modelFound o ps f t m <;> simp_all
+  rw [unmarshalStruct.eq_def]
+  simp only [hne, Bool.false_eq_true, if_false, he, and_self, if_true, ne_eq, not_false_eq_true]
+  cases withEnv o f t (envLookup o.env f.envVar) <;> simp [unmarshalStruct, Except.map]
+
+theorem unmarshalStruct_noValue_route (o : Opts) (ps : List JM) (f : FMeta) (t : Ty) (m : JM) (hne : f.embedded = false)
+   (h : modelFieldRoute o f (modelFound o ps f t m) = .noValue) :
+   unmarshalStruct o ps (.cons f t .nil) m =
+     (if f.dflt ≠ [] then withDefault t f.dflt else withoutValue o t f.optional).map (fun x => .cons f.name x .nil) := by
+  have hn : ¬ (f.envVar ≠ [] ∧ envLookup o.env f.envVar ≠ []) := by
+    intro ⟨a, b⟩; simp [modelFieldRoute, fieldRoute, a, b] at h
+  have hf : modelFound o ps f t m = none := by
+    cases hh : modelFound o ps f t m with
+    | none => rfl
+    | some v =>
+      simp only [modelFieldRoute, fieldRoute, hh] at h
+      by_cases h1 : f.envVar = [] <;> by_cases h2 : envLookup o.env f.envVar = [] <;> simp_all
+  rw [unmarshalStruct.eq_def]
+  simp only [modelFound] at hf
+  simp only [hne, Bool.false_eq_true, if_false, hn, hf]
+  cases (if f.dflt ≠ [] then withDefault t f.dflt else withoutValue o t f.optional) <;> simp [unmarshalStruct, Except.map]
+
+theorem modelFieldRoute_never_skip (o : Opts) (f : FMeta) (found : Option J) : modelFieldRoute o f found ≠ .skip := by
+  simp only [modelFieldRoute, fieldRoute]
+  by_cases h1 : f.envVar = [] <;> by_cases h2 : envLookup o.env f.envVar = [] <;> cases found <;> simp_all
+theorem JL.lengthInt_nonneg : ∀ (l : JL), 0 ≤ l.lengthInt
+  | .nil => by simp [JL.lengthInt]
+  | .cons _ t => by have := JL.lengthInt_nonneg t; simp only [JL.lengthInt]; omega
+
+/-- **the model follows `fromArrayTakesFirst`** (`WithFromArray`, Tie `tie_fromArrayTakesFirst`): a non-slice field takes
+the first element of a non-empty array value, everything else stays. -/
+theorem fromArrayAdj_follows (isSlice : Bool) (v : J) :
+    fromArrayAdj isSlice v =
+      match v with
+      | .arr (.cons h t) => if fromArrayTakesFirst true false isSlice true (jSeqLen (.arr (.cons h t))) then h else v
+      | _ => v := by
+  cases v with
+  | arr l =>
+    cases l with
+    | nil => cases isSlice <;> rfl
+    | cons h t =>
+      have := JL.lengthInt_nonneg t
+      have hp : t.lengthInt + 1 > 0 := by omega
+      cases isSlice <;> simp [fromArrayAdj, fromArrayTakesFirst, jSeqLen, JL.lengthInt, hp]
+  | _ => cases isSlice <;> rfl
 end GoZero.C17
